@@ -212,6 +212,17 @@ class SuperSpeedStreamInEndpoint(Elaboratable):
         ack_received      = handshakes_in.ack_received & is_to_us
         in_token_received = ack_received & is_in_token
 
+        # Our transfer information is either constant or registered; drive it at all times, so it is valid
+        # in the cycle in which our transmit stream becomes valid, and whenever we request a ZLP. Also identify
+        # ourselves in any transaction packets (NRDY / ERDY) we request.
+        m.d.comb += [
+            interface.tx_direction          .eq(USBDirection.IN),
+            interface.tx_sequence_number    .eq(sequence_number),
+            interface.tx_length             .eq(read_fill_count),
+            interface.tx_endpoint_number    .eq(self._endpoint_number),
+            handshakes_out.endpoint_number  .eq(self._endpoint_number),
+        ]
+
         with m.FSM(domain='ss'):
 
             # WAIT_FOR_DATA -- We don't yet have a full packet to transmit, so  we'll capture data
@@ -298,14 +309,6 @@ class SuperSpeedStreamInEndpoint(Elaboratable):
             # SEND_PACKET -- we now have enough data to send _and_ have received an IN token.
             # We can now send our data over to the host.
             with m.State("SEND_PACKET"):
-
-                m.d.comb += [
-                    # Apply our general transfer information.
-                    interface.tx_direction        .eq(USBDirection.IN),
-                    interface.tx_sequence_number  .eq(sequence_number),
-                    interface.tx_length           .eq(read_fill_count),
-                    interface.tx_endpoint_number  .eq(self._endpoint_number),
-                ]
 
                 with m.If(~out_stream.valid.any() | out_stream.ready):
                     # Once we emitted a word of data for our receiver, move to the next word in our packet.
@@ -414,9 +417,10 @@ class SuperSpeedStreamInEndpoint(Elaboratable):
                             # and then continue waiting for the next ACK.
                             with m.If(is_in_token):
 
-                                # ... send a ZLP...
+                                # ... send a ZLP, which carries the sequence number we're advancing to...
                                 m.d.comb += [
                                     interface.tx_zlp.eq(1),
+                                    interface.tx_sequence_number.eq(next_sequence_number),
                                     advance_sequence.eq(1),
                                 ]
 
